@@ -66,7 +66,8 @@ def corpus():
     return out
 
 
-OPS = ['lib_verify', 'cli_verify', 'lib_verify_sub', 'assert_path', 'lib_update_scan', 'cli_update']
+OPS = ['lib_verify', 'cli_verify', 'lib_verify_sub', 'assert_path', 'lib_update_scan', 'cli_update',
+       'lib_verify_keepgoing', 'cli_verify_k']
 
 
 def run_op(root, op, F=None):
@@ -76,6 +77,10 @@ def run_op(root, op, F=None):
         return gem.lib_verify(root, TOP, 'd')
     if op == 'cli_verify':
         return gem.cli(['verify', root])
+    if op == 'cli_verify_k':
+        return gem.cli(['verify', '-k', root])
+    if op == 'lib_verify_keepgoing':
+        return gem.lib_verify(root, TOP, '', fail_handler=lambda e: False)
     if op == 'assert_path':
         return gem.call(lambda: gem.loader(root, TOP).assert_path_verifies('d/f1'))
     if op == 'lib_update_scan':
